@@ -112,8 +112,7 @@ def stepOp (m : DMessage) (r : Run) (op : String) : Option Run := do
         else if !f.validate then "rt-invalid-frame" else "ok"
     some (emit r res)
   | ["cp"] =>
-    let f := CanVerif.frameOf m r.st
-    let dst := (unmarshalFrame m (newState m) f).getD (newState m)
+    let dst := copyFrom m (newState m) r.st
     some (emit r ("cp " ++ gframeStr (CanVerif.frameOf m dst)))
   | _ => none
 
